@@ -115,4 +115,48 @@ struct Gen
   bool failed() const { return static_cast<bool>(h.promise().ex); }
   handle h;
 };
+template <typename T, bool Eager>
+struct Gen2   // as Gen, but the promise accepts yielded values through an overload set (const& and &&) - a common way to write it
+{
+  struct promise_type
+  {
+    std::optional<T> yielded;
+    std::exception_ptr ex;
+    Gen2 get_return_object() { return Gen2{std::coroutine_handle<promise_type>::from_promise(*this)}; }
+    start_t<Eager> initial_suspend() noexcept { return {}; }
+    std::suspend_always final_suspend() noexcept { return {}; }
+    std::suspend_always yield_value(T const& v) { yielded = v; return {}; }
+    std::suspend_always yield_value(T&& v) { yielded = std::move(v); return {}; }
+    void return_void() {}
+    void unhandled_exception() noexcept { ex = std::current_exception(); }
+  };
+  using handle = std::coroutine_handle<promise_type>;
+  explicit Gen2(handle h_) : h(h_) {}
+  Gen2(Gen2&& r) noexcept : h(std::exchange(r.h, nullptr)) {}
+  Gen2(Gen2 const&) = delete;
+  ~Gen2() { if (h) h.destroy(); }
+  struct iterator
+  {
+    using value_type = T;
+    using difference_type = std::ptrdiff_t;
+    handle h{};
+    T const& operator*() const { return *h.promise().yielded; }
+    iterator& operator++() { h.promise().yielded.reset(); h.resume(); if (h.promise().ex) std::rethrow_exception(h.promise().ex); return *this; }
+    void operator++(int) { ++*this; }
+    friend bool operator==(iterator const& i, std::default_sentinel_t) { return i.h.done(); }
+  };
+  iterator begin()
+  {
+    if (!h.promise().yielded && !h.done()) { h.resume(); if (h.promise().ex) std::rethrow_exception(h.promise().ex); }
+    return iterator{h};
+  }
+  std::default_sentinel_t end() const { return {}; }
+  // manual stepping
+  bool done() const { return h.done(); }
+  void resume() { h.promise().yielded.reset(); h.resume(); }
+  std::optional<T> take_yield() { auto y = std::move(h.promise().yielded); h.promise().yielded.reset(); return y; }
+  void result() { if (h.promise().ex) std::rethrow_exception(h.promise().ex); }
+  bool failed() const { return static_cast<bool>(h.promise().ex); }
+  handle h;
+};
 #endif
